@@ -210,7 +210,8 @@ def build(case):
     rng = random.Random('%s/%s/c06' % (case['seed'], case['index']))
     if case['index'] % 25 == 24:
         return withdrawn_by_cleanup(rng), rng
-    gen = Gen(rng, weights=WEIGHTS, max_depth=3, max_steps=4, max_roots=3)
+    gen = Gen(rng, weights=WEIGHTS, max_depth=3, max_steps=4, max_roots=3,
+              start_times=(0, 0, 0, -2, -0.5, 0.5))
     return gen.program(), rng
 
 
